@@ -11,12 +11,13 @@
 (*   FixD3  schedule() registers the handler only after the emitter was created and started            *)
 (*   FixD10 start() holds the observer lock                                                            *)
 (*   FixD12 schedule() does not start an emitter once stop() was requested                             *)
+(*   FixD17 start() does not start the emitters once stop() was requested                              *)
 EXTENDS Naturals, Sequences, FiniteSets, TLC
 
 CONSTANTS Family,          \* name of the client-program family (see Programs)
           MaxEm,           \* emitter ids 1..MaxEm
           EvPerEm,         \* events each emitter produces
-          FixD3, FixD10, FixD12
+          FixD3, FixD10, FixD12, FixD17
 
 Watches == {1, 2}
 Handlers == {1, 2, 3}
@@ -40,6 +41,7 @@ Programs ==
                                 a2 |-> <<Op("schedule", 2, 2), Op("unschedule_all", 0, 0), Op("stop", 0, 0)>>]
     [] Family = "stoprace"  -> [a1 |-> <<Op("schedule", 1, 1), Op("start", 0, 0), Op("stop", 0, 0), Op("join", 0, 0)>>,
                                 a2 |-> <<Op("schedule", 2, 2)>>]
+    [] Family = "stopfirst" -> [a1 |-> <<Op("schedule", 1, 1), Op("start", 0, 0), Op("join", 0, 0)>>, a2 |-> <<Op("stop", 0, 0)>>]
     [] Family = "failing"   -> [a1 |-> <<Op("start", 0, 0), Op("schedule", 1, 1), Op("schedule", 2, 1), Op("stop", 0, 0), Op("join", 0, 0)>>,
                                 a2 |-> << >>]
     [] OTHER -> [a1 |-> << >>, a2 |-> << >>]
@@ -179,7 +181,8 @@ Body(t) ==
                         /\ em' = StopEm({e})
                         /\ cs' = [cs EXCEPT ![t].ph = "rel", ![t].ok = FALSE]
                         /\ UNCHANGED <<watches, handlers, nextEm, obs, lastFailed>>
-                   ELSE /\ em' = [e \in EmIds |-> IF e \in emitters /\ em[e].st = "created" THEN [em[e] EXCEPT !.st = "running"] ELSE em[e]]
+                   ELSE /\ em' = [e \in EmIds |-> IF e \in emitters /\ em[e].st = "created" /\ (FixD17 => ~stopFlag)
+                                                    THEN [em[e] EXCEPT !.st = "running"] ELSE em[e]]
                         /\ cs' = [cs EXCEPT ![t].ph = IF FixD10 THEN "startobs" ELSE "startgap"]
                         /\ UNCHANGED <<watches, handlers, emitterFor, emitters, nextEm, failStart, obs, lastFailed>>
          [] OTHER -> FALSE
